@@ -1,6 +1,7 @@
 package main
 
 import (
+	"bytes"
 	"crypto/sha256"
 	"encoding/hex"
 	"fmt"
@@ -107,7 +108,7 @@ func checkC18(r *Run) {
 	pool := r.Pool()
 	scratch, _ := os.MkdirTemp("/tmp", "verif-c18-")
 	defer os.RemoveAll(scratch)
-	nproj := r.pick(60, 1000)
+	nproj := r.pick(60, 300)
 	var builds, refsChecked, hashedPaths int64
 	parallel(nproj, 16, func(i int) {
 		rng := newRng(r.Seed, fmt.Sprint("c18", i))
@@ -117,6 +118,7 @@ func checkC18(r *Run) {
 		defer os.RemoveAll(dir)
 		var mu sync.Mutex
 		digests := map[string]string{} // hashed path -> digest
+		digestsNoMap := map[string]string{} // hashed path -> digest of the bytes before the trailing source map comment
 		origin := map[string]string{}
 		type variant struct {
 			name string
@@ -195,10 +197,30 @@ func checkC18(r *Run) {
 				sum := sha256.Sum256(c)
 				d := hex.EncodeToString(sum[:8])
 				mu.Lock()
-				if old, ok := digests[rel]; ok && old != d {
+				// the same bytes up to the trailing sourceMappingURL comment (or inline map): the recorded "comment appended
+				// after hashing" finding, whatever edit separates the two builds (the file is one the edit does not reach)
+				noMap := c
+				for _, tag := range []string{"\n//# sourceMappingURL=", "\n/*# sourceMappingURL="} {
+					if k := bytes.LastIndex(noMap, []byte(tag)); k >= 0 {
+						noMap = noMap[:k]
+					}
+				}
+				// … and up to the "For license information please see" line that --legal-comments=linked appends
+				if k := bytes.LastIndex(noMap, []byte("/*! For license information please see ")); k >= 0 && bytes.Count(noMap[k:], []byte("\n")) <= 1 {
+					noMap = noMap[:k]
+				}
+				noMap = bytes.TrimRight(noMap, "\n")
+				sumNM := sha256.Sum256(noMap)
+				dNM := hex.EncodeToString(sumNM[:8])
+				if old, ok := digests[rel]; ok && old != d && digestsNoMap[rel] == dNM && c18IsLegalVariant(origin[rel]) && c18IsLegalVariant(label) && !(c18IsSourceMapVariant(origin[rel]) && c18IsSourceMapVariant(label)) {
+					viol("same-name-different-content:legal-link-appended-after-hashing:"+path.Ext(rel), fmt.Sprintf("%s is emitted with and without the trailing legal-comments link by two builds of this project (first by %s)", rel, origin[rel]), map[string]interface{}{"path": rel, "first_build": origin[rel]})
+				} else if old, ok := digests[rel]; ok && old != d && digestsNoMap[rel] == dNM && c18IsSourceMapVariant(origin[rel]) && c18IsSourceMapVariant(label) {
+					viol("same-name-different-content:sourcemap-comment-appended-after-hashing:"+path.Ext(rel), fmt.Sprintf("%s is emitted with and without the trailing source map comment by two builds of this project (first by %s)", rel, origin[rel]), map[string]interface{}{"path": rel, "first_build": origin[rel]})
+				} else if old, ok := digests[rel]; ok && old != d {
 					viol("same-name-different-content:"+c18ConflictClass(origin[rel], label, path.Ext(rel)), fmt.Sprintf("%s is emitted with different bytes by two builds of this project (first by %s)", rel, origin[rel]), map[string]interface{}{"path": rel, "first_build": origin[rel]})
 				} else if !ok {
 					digests[rel] = d
+					digestsNoMap[rel] = dNM
 					origin[rel] = label
 					atomic.AddInt64(&hashedPaths, 1)
 				}
@@ -387,4 +409,14 @@ func c18ConflictClass(a, b, ext string) string {
 	vs := []string{va, vb}
 	sort.Strings(vs)
 	return "edits:" + es[0] + "~" + es[1] + "@" + vs[0] + "~" + vs[1] + ":" + ext
+}
+
+func c18IsSourceMapVariant(label string) bool {
+	v := label[strings.LastIndex(label, "/")+1:]
+	return v == "sourcemap-linked" || v == "sourcemap-external" || v == "sourcemap-inline" || v == "sourcemap-both" || v == "legal-linked+sourcemap"
+}
+
+func c18IsLegalVariant(label string) bool {
+	v := label[strings.LastIndex(label, "/")+1:]
+	return v == "legal-linked" || v == "legal-external" || v == "legal-linked+sourcemap"
 }
